@@ -10,6 +10,7 @@ from types import ModuleType
 from .meta_runner import MetaRunner
 from .guard import exclusive
 from ..debug import NameRepr
+from ._verif import point
 
 
 T = TypeVar("T")
@@ -62,6 +63,7 @@ class ServiceUnit(object):
             return
         else:
             self._started = True
+            point("sr.unit.start", flavour=self.flavour.__name__)
             runner.register_payload(service.run, flavour=self.flavour)
 
     def __repr__(self):
@@ -161,6 +163,7 @@ class ServiceRunner(object):
         may :py:meth:`accept` payloads at any time.
         """
         self._must_shutdown = False
+        point("sr.accept.begin")
         self._logger.info("%s starting", self.__class__.__name__)
         self.adopt(self._accept_services, flavour=trio)
         self._meta_runner.run()
@@ -168,13 +171,17 @@ class ServiceRunner(object):
     def shutdown(self):
         """Shutdown the accept loop and stop running payloads"""
         self._must_shutdown = True
+        point("sr.shutdown.flag")
         self._is_shutdown.wait()
+        point("sr.shutdown.stop")
         self._meta_runner.stop()
+        point("sr.shutdown.ret")
 
     async def _accept_services(self):
         delay, max_delay, increase = 0.0, self.accept_delay, self.accept_delay / 10
         self._is_shutdown.clear()
         self.running.set()
+        point("sr.svc.enter")
         try:
             self._logger.info("%s started", self.__class__.__name__)
             while not self._must_shutdown:
@@ -191,8 +198,10 @@ class ServiceRunner(object):
         finally:
             self.running.clear()
             self._is_shutdown.set()
+            point("sr.svc.exit")
 
     def _adopt_services(self):
+        point("sr.svc.poll")
         for unit in ServiceUnit.units():
             if unit.running:
                 continue
